@@ -7,7 +7,7 @@ import iglib
 from gen import macgen
 from props.c12 import workdir
 
-THEOREMS = ["IgVerif.C08.c08_literal_opaque", "IgVerif.C08.c08_literal_body", "IgVerif.C08.c08_stringify_param", "IgVerif.C08.c08_identity_param", "IgVerif.C08.c08_param_substitution", "IgVerif.C08.c08_hash_any_param", "IgVerif.C08.c08_paste_params", "IgVerif.Exp.save_literal", "IgVerif.Exp.takeLit_clean",
+THEOREMS = ["IgVerif.C08.c08_literal_opaque", "IgVerif.C08.c08_literal_body", "IgVerif.C08.c08_stringify_param", "IgVerif.C08.c08_identity_param", "IgVerif.C08.c08_param_substitution", "IgVerif.C08.c08_hash_any_param", "IgVerif.C08.c08_paste_params", "IgVerif.C08.c08_va_args_join", "IgVerif.C08.c08_hash_va_args", "IgVerif.Exp.save_literal", "IgVerif.Exp.takeLit_clean",
             "IgVerif.C08.c08_stringify_roundtrip", "IgVerif.C08.c08_stringify_delimited", "IgVerif.C08.go_reads_back", "IgVerif.C08.step_reads_back"]
 PARTIAL = [("c08_conforms (tokens of interrogate's expansion = tokens of a conforming preprocessor, for every macro program)",
             "theorems cover the # operator (round trip of stringify) and one level of expansion (Model/Expand.lean = save_expansion + r_expand: literals are opaque, "
